@@ -1345,6 +1345,66 @@ fn rec_macc(o: &mut Out, r: &mut Rng, draws: u64) {
     one!(Mat2, Mat3, Mat3A, Mat4, DMat2, DMat3, DMat4, Affine2, Affine3A, DAffine2, DAffine3);
 }
 
+// ------------------------------------------------------------------------------------------ mask histories (Trace_C15)
+fn rec_mask_ty<B: hx::bm::SelObs>(o: &mut Out, r: &mut Rng, steps: u64) {
+    use hx::bm::BM;
+    let n = B::N;
+    let rbools = |r: &mut Rng| -> Vec<bool> { let k = r.below(6); (0..n).map(|i| match k { 0 => true, 1 => false, _ => (r.next() >> (7 + i)) & 1 == 1 }).collect() };
+    // any producer of a mask with the given lanes
+    let produce = |r: &mut Rng, l: &[bool]| -> B { let vs = B::variants(l); vs[(r.next() as usize) % vs.len()] };
+    let obs = |m: &B| -> Value {
+        let test: Vec<bool> = (0..n).map(|i| m.test_(i)).collect();
+        let fresh = B::mk(&test);
+        json!({"test": test, "arr": m.bools(), "sel": m.sel_(), "bitmask": m.bitmask_(), "any": m.any_(), "all": m.all_(),
+               "u32": m.u32s().iter().map(|x| match *x { 0 => 0, u32::MAX => 1, _ => 2 }).collect::<Vec<i32>>(),
+               "eqfresh": *m == fresh && fresh == *m && !(*m != fresh)})
+    };
+    let start = rbools(r);
+    let mut m = produce(r, &start);
+    o.emit(json!({"k": "mask", "op": "begin", "ty": B::NAME, "n": n, "obs": obs(&m)}));
+    let ctors = ["new", "splat", "from_array", "from_trait", "free_fn"];
+    let bins = ["and", "or", "xor", "and_assign", "or_assign", "xor_assign"];
+    for _ in 0..steps {
+        match r.below(12) {
+            0 => {
+                let path = ctors[r.below(ctors.len() as u64) as usize];
+                let mut arg = rbools(r);
+                if path == "splat" { let b = arg[0]; for x in arg.iter_mut() { *x = b; } }
+                if let Some(nm) = B::ctor(path, &arg) {
+                    m = nm;
+                    o.emit(json!({"k": "mask", "op": "ctor", "ty": B::NAME, "path": path, "arg": arg, "obs": obs(&m)}));
+                }
+            }
+            1 | 2 => { m = m.not_(); o.emit(json!({"k": "mask", "op": "not", "ty": B::NAME, "obs": obs(&m)})); }
+            3..=6 => {
+                let path = bins[r.below(bins.len() as u64) as usize];
+                let arg = rbools(r);
+                let b = produce(r, &arg);
+                m = m.bin(path, b);
+                o.emit(json!({"k": "mask", "op": "bin", "ty": B::NAME, "path": path, "arg": arg, "obs": obs(&m)}));
+            }
+            7..=10 => {
+                let (idx, val) = (r.below(n as u64) as usize, r.below(2) == 1);
+                m.set_(idx, val);
+                o.emit(json!({"k": "mask", "op": "set", "ty": B::NAME, "idx": idx, "val": val, "obs": obs(&m)}));
+            }
+            _ => {
+                let path = if r.below(2) == 0 { "test" } else { "set" };
+                let idx = n + r.below(3) as usize;
+                let before = m;
+                let panicked = if path == "test" { std::panic::catch_unwind(std::panic::AssertUnwindSafe(|| { let _ = before.test_(idx); })).is_err() }
+                               else { let mut t = before; std::panic::catch_unwind(std::panic::AssertUnwindSafe(move || { t.set_(idx, true); })).is_err() };
+                o.emit(json!({"k": "mask", "op": "badindex", "ty": B::NAME, "path": path, "idx": idx, "panicked": panicked, "obs": obs(&m)}));
+            }
+        }
+    }
+}
+fn rec_mask(o: &mut Out, r: &mut Rng, draws: u64) {
+    use glam::*;
+    macro_rules! one { ($($B:ident),*) => { $( rec_mask_ty::<$B>(o, r, 16 * draws); )* }; }
+    one!(BVec2, BVec3, BVec3A, BVec4, BVec4A);
+}
+
 // ------------------------------------------------------------------------------------------ swizzle histories (Trace_C16)
 /// A random history of swizzle getters and `with_` setters on one register per vector type: getters of the register's own length are
 /// written back (the register is permuted in place), the others are only observed, setters replace the named lanes.  Every event logs the
@@ -1537,6 +1597,7 @@ fn main() {
         "acc" => rec_acc(&mut o, &mut r, draws),
         "macc" => rec_macc(&mut o, &mut r, draws),
         "swz" => rec_swz(&mut o, &mut r, draws),
+        "mask" => rec_mask(&mut o, &mut r, draws),
         _ => panic!("mode"),
     }
     o.w.flush().unwrap();
